@@ -1,4 +1,6 @@
 import SJ.Proofs.RoundTrip
+import SJ.Proofs.RoundTripWF
+import SJ.Props.C02
 import SJ.Props.C03
 import SJ.Props.C01
 /-!
@@ -30,7 +32,7 @@ The theorems are obtained **by composition**:
 -/
 namespace SJ.Props.C04
 open SJ SJ.Model.Ser SJ.Model.Machine SJ.Spec.Grammar SJ.Spec.Image SJ.Spec.WF
-open SJ.Proofs.CanonM SJ.Proofs.RoundTrip SJ.Props.C03 SJ.Props.C01
+open SJ.Proofs.CanonM SJ.Proofs.RoundTrip SJ.Proofs.RoundTripWF SJ.Props.C03 SJ.Props.C01
 
 /-- the representation invariant of a `Value` in the build `cfg` -/
 def WFValue (cfg : Cfg) (v : JV) : Prop := wfValue (specCfg cfg) v = true
@@ -230,5 +232,84 @@ example : ∃ bufs, serCompact ext0 (ofValue exF) = .ok bufs ∧
 example : WFValue {} (.num (.float 0x4004000000000000)) ∧ ¬ FloatsRoundTrip {} ext0 (.num (.float 0x4004000000000000)) ∧
     parseTop ⟨{}, .str, .value⟩ [0x31, 0x2e, 0x35] = .ok (.num (.float 0x3ff8000000000000)) :=
   ⟨by decide, by decide +kernel, rfl⟩
+
+
+/-! ## every value the parser returns is well-formed — so the round trip applies to it -/
+
+/-- **C04 (`wf_of_parse`) — partial.** Whatever `from_slice` / `from_reader` return satisfies the
+    representation invariant: integers in range, strings and keys valid UTF-8, keys sorted (distinct
+    under `preserve_order`), literals well-formed (`arbitrary_precision`), depth ≤ 127 unless the limit
+    is off. Missing, hence hypotheses: (1) `finiteFloats v`: the floats of the returned value are finite
+    — that the configured conversion never returns an infinity or NaN is the finiteness clause of C07
+    (`float_roundtrip`) / C08 (default), a statement about `Spec.Ieee` rounding that is not proved here
+    (see `c04_wf_of_parse_finite` for the form with that clause as hypothesis); on a concrete value it is
+    checked by evaluation; (2) `src ≠ .str`: for `from_str` the parser does not re-validate UTF-8, and
+    "escape-decoding a valid UTF-8 text yields valid UTF-8 strings" is not proved. -/
+theorem c04_wf_of_parse_partial (cfg : Cfg) (src : Src) (hsrc : src ≠ .str) (bs : Bytes) (v : JV)
+    (h : parseTop ⟨cfg, src, .value⟩ bs = .ok v) (hfin : finiteFloats v = true) : WFValue cfg v := by
+  obtain ⟨t, ht, hc, hd, _, hu, _⟩ := SJ.Props.C02.c02_denotes ⟨cfg, src, .value⟩ rfl bs v h
+  obtain ⟨w1, vb, w2, _, _, _, hder⟩ := ht
+  have hs := shape_of_canonM cfg t v (numsWF_of_derives hder) (hu hsrc) hc
+  simp only [WFValue, wfValue, Bool.and_eq_true, Bool.or_eq_true, decide_eq_true_eq]
+  refine ⟨hs.1 hfin, ?_⟩
+  rcases hd with hd | hd
+  · exact .inl hd
+  · exact .inr (by have := hs.2; omega)
+
+/-- ` { "b" : 1.5 , "a" : [ -7, "é" ] , "b" : 18446744073709551615 } ` in the default build:
+    duplicate key, blanks, an escape — the value read has no float, is well-formed and round-trips -/
+def exDoc : Bytes :=
+  [0x20, 0x7b, 0x22, 0x62, 0x22, 0x3a, 0x31, 0x2e, 0x35, 0x2c, 0x22, 0x61, 0x22, 0x3a, 0x5b, 0x2d, 0x37, 0x2c, 0x22, 0x5c,
+   0x75, 0x30, 0x30, 0x65, 0x39, 0x22, 0x5d, 0x2c, 0x22, 0x62, 0x22, 0x3a, 0x31, 0x38, 0x34, 0x34, 0x36, 0x37, 0x34, 0x34,
+   0x30, 0x37, 0x33, 0x37, 0x30, 0x39, 0x35, 0x35, 0x31, 0x36, 0x31, 0x35, 0x7d, 0x20]
+def exDocV : JV :=
+  .obj [([0x61], .arr [.num (.neg (-7)), .str [0xc3, 0xa9]]), ([0x62], .num (.pos 18446744073709551615))]
+
+example : parseTop ⟨{}, .slice, .value⟩ exDoc = .ok exDocV := rfl
+
+example : WFValue {} exDocV := c04_wf_of_parse_partial {} .slice (by decide) exDoc exDocV rfl rfl
+
+/-- the same with the finiteness clause of C07 / C08 as a hypothesis on the conversion
+    (`ParsedFloatsFinite`: a well-formed literal is never converted to an infinity or NaN) -/
+theorem c04_wf_of_parse_finite (cfg : Cfg) (src : Src) (hsrc : src ≠ .str)
+    (hfin : ParsedFloatsFinite (specCfg cfg)) (bs : Bytes) (v : JV)
+    (h : parseTop ⟨cfg, src, .value⟩ bs = .ok v) : WFValue cfg v := by
+  obtain ⟨t, ht, hc, _⟩ := SJ.Props.C02.c02_denotes ⟨cfg, src, .value⟩ rfl bs v h
+  obtain ⟨w1, vb, w2, _, _, _, hder⟩ := ht
+  exact c04_wf_of_parse_partial cfg src hsrc bs v h (finite_of_canonM cfg hfin t v (numsWF_of_derives hder) hc)
+
+/-- **`arbitrary_precision`: no float hypothesis** — numbers are kept as literals, so the finiteness
+    clause is vacuous: every value returned from a byte source is well-formed, and therefore
+    (`c04_value_ap`) survives serialise-then-deserialise unchanged. -/
+theorem c04_wf_of_parse_ap (cfg : Cfg) (hap : cfg.ap = true) (src : Src) (hsrc : src ≠ .str)
+    (bs : Bytes) (v : JV) (h : parseTop ⟨cfg, src, .value⟩ bs = .ok v) :
+    WFValue cfg v ∧ ∀ (ext : Ext), ExtOK ext → ∀ src',
+      ∃ bufs, serCompact ext (ofValue v) = .ok bufs ∧ parseTop ⟨cfg, src', .value⟩ bufs.flatten = .ok v := by
+  have hfin : ParsedFloatsFinite (specCfg cfg) := by
+    intro p b _ hn
+    have : (specCfg cfg).ap = true := hap
+    simp [Spec.Canon.numOf, this] at hn
+  have hwf := c04_wf_of_parse_finite cfg src hsrc hfin bs v h
+  exact ⟨hwf, fun ext hext src' => (c04_value_ap cfg hap src' ext hext v hwf).1⟩
+
+/-- ` { "b" : 1.0 , "a" : [ 1E400 ] , "b" : -0 } ` under `arbitrary_precision`: a literal without `f64`
+    value and `-0` are kept verbatim -/
+example : parseTop ⟨{ ap := true }, .slice, .value⟩
+      [0x20, 0x7b, 0x22, 0x62, 0x22, 0x3a, 0x31, 0x2e, 0x30, 0x2c, 0x22, 0x61, 0x22, 0x3a, 0x5b, 0x31, 0x45, 0x34, 0x30, 0x30,
+       0x5d, 0x2c, 0x22, 0x62, 0x22, 0x3a, 0x2d, 0x30, 0x7d, 0x20]
+    = .ok (.obj [([0x61], .arr [.num (.lit [0x31, 0x45, 0x34, 0x30, 0x30])]), ([0x62], .num (.lit [0x2d, 0x30]))]) := rfl
+
+/-- **re-serialising what was parsed and parsing again gives the same value** (byte sources):
+    `from_slice(to_vec(from_slice(bs))) = from_slice(bs)` whenever the floats of the value read are
+    finite and returned by the printer/parser pair (both vacuous for a value without floats). -/
+theorem c04_reparse_partial (cfg : Cfg) (src : Src) (hsrc : src ≠ .str) (ext : Ext) (hext : ExtOK ext)
+    (bs : Bytes) (v : JV) (h : parseTop ⟨cfg, src, .value⟩ bs = .ok v)
+    (hfin : finiteFloats v = true) (hfl : FloatsRoundTrip cfg ext v) :
+    ∃ bufs, serCompact ext (ofValue v) = .ok bufs ∧ parseTop ⟨cfg, src, .value⟩ bufs.flatten = .ok v :=
+  c04_value cfg src ext hext v (c04_wf_of_parse_partial cfg src hsrc bs v h hfin) hfl
+
+example : ∃ bufs, serCompact ext0 (ofValue exDocV) = .ok bufs ∧
+    parseTop ⟨{}, .slice, .value⟩ bufs.flatten = .ok exDocV :=
+  c04_reparse_partial {} .slice (by decide) ext0 ext0_ok exDoc exDocV rfl rfl (by decide)
 
 end SJ.Props.C04
